@@ -131,6 +131,13 @@ func fb32(f float32) uint32 {
 `
 
 func (f *family) program(sel []int) string {
+	src, _ := f.programMap(sel)
+	return src
+}
+
+// programMap also returns, for every selected unit, the [first,last] source lines of its declarations.
+func (f *family) programMap(sel []int) (string, map[int][2]int) {
+	lines := map[int][2]int{}
 	var b strings.Builder
 	b.WriteString("package main\n\n")
 	for _, im := range f.imports {
@@ -143,16 +150,20 @@ func (f *family) program(sel []int) string {
 		}
 	}
 	b.WriteString(f.prelude)
+	line := 1 + strings.Count(b.String(), "\n")
 	for _, i := range sel {
-		b.WriteString(f.units[i].decls)
-		b.WriteString("\n")
+		d := f.units[i].decls + "\n"
+		n := strings.Count(d, "\n")
+		lines[i] = [2]int{line, line + n - 1}
+		line += n
+		b.WriteString(d)
 	}
 	b.WriteString("func main() {\n")
 	for _, i := range sel {
 		fmt.Fprintf(&b, "\tsafe(%d, %s)\n", i, f.units[i].fn)
 	}
 	b.WriteString("\tprintln(\"#END\")\n}\n")
-	return b.String()
+	return b.String(), lines
 }
 
 func allUnits(f *family) []int {
@@ -386,19 +397,33 @@ func checkFamily(g *gnoRunner, f *family) famStats {
 	goUnits, _ := splitUnits(goOut)
 
 	t0 = time.Now()
-	gnoOut, perr := g.run(f.name, src)
-	gnoUnits, ended := splitUnits(gnoOut)
-	if perr != "" || !ended {
-		// The Gno side rejected the program or died: isolate the offending units by bisection, report each of
-		// them, and compare the rest.
-		bad := isolate(g, f, sel, 0)
-		badSet := map[int]bool{}
+	gnoUnits, bad, fatal := runGnoResilient(g, f, sel)
+	if len(bad) > 0 {
+		// group by error signature: one finding per (family, signature)
+		bySig := map[string][]badUnit{}
+		var order []string
 		for _, b := range bad {
-			badSet[b.idx] = true
-			st.failingUnits++
-			r.Violation(fmt.Sprintf("%s/%s: gno fails on a program Go runs", f.name, f.units[b.idx].key),
-				map[string]any{"family": f.name, "unit": f.units[b.idx].key, "gno_error": tail(b.err, 1500),
-					"go_output_head": head(goUnits[b.idx], 5), "program": f.program([]int{b.idx})})
+			sg := errSignature(b.err)
+			if _, ok := bySig[sg]; !ok {
+				order = append(order, sg)
+			}
+			bySig[sg] = append(bySig[sg], b)
+		}
+		badSet := map[int]bool{}
+		for _, sg := range order {
+			var keys []string
+			for _, b := range bySig[sg] {
+				badSet[b.idx] = true
+				st.failingUnits++
+				if len(keys) < 25 {
+					keys = append(keys, f.units[b.idx].key)
+				}
+			}
+			first := bySig[sg][0]
+			r.Violation(fmt.Sprintf("%s: gno fails on programs Go runs: %s", f.name, sg),
+				map[string]any{"family": f.name, "signature": sg, "units": keys, "n_units": len(bySig[sg]), "gno_error": tail(first.err, 1500),
+					"go_output_head": head(goUnits[first.idx], 5), "program": f.program([]int{first.idx})})
+			r.OutcomeN(f.name+".gno_fails", int64(len(bySig[sg])))
 		}
 		var rest []int
 		for _, i := range sel {
@@ -406,14 +431,11 @@ func checkFamily(g *gnoRunner, f *family) famStats {
 				rest = append(rest, i)
 			}
 		}
-		gnoOut, perr = g.run(f.name, f.program(rest))
-		gnoUnits, ended = splitUnits(gnoOut)
-		if perr != "" || !ended {
-			r.Violation(fmt.Sprintf("%s: gno fails on the family program even after isolating %d units", f.name, len(bad)),
-				map[string]any{"family": f.name, "gno_error": tail(perr, 1500)})
-			return st
-		}
 		sel = rest
+	}
+	if fatal != "" {
+		r.Violation(fmt.Sprintf("%s: gno keeps failing after isolating %d units", f.name, len(bad)), map[string]any{"family": f.name, "gno_error": tail(fatal, 1500)})
+		return st
 	}
 	st.gnoMs = time.Since(t0).Milliseconds()
 
@@ -507,28 +529,137 @@ type badUnit struct {
 	err string
 }
 
-// isolate finds the units on which the Gno side fails (bisection; units are independent by construction).
-func isolate(g *gnoRunner, f *family, sel []int, depth int) []badUnit {
-	if len(sel) == 0 {
-		return nil
+var posRe = regexp.MustCompile(`[\w/]+\.gno:\d+(:\d+)?(-\d+(:\d+)?)?:?\s*`)
+var numRe = regexp.MustCompile(`\d+`)
+var lineRe = regexp.MustCompile(`\.gno:(\d+)`)
+
+// errSignature: first line of a Gno-side failure with source positions and numbers abstracted.
+func errSignature(e string) string {
+	e = strings.TrimSpace(e)
+	if i := strings.Index(e, "\n"); i >= 0 {
+		e = e[:i]
 	}
-	out, perr := g.run(f.name, f.program(sel))
-	_, ended := splitUnits(out)
-	if perr == "" && ended {
-		return nil
+	e = posRe.ReplaceAllString(e, "")
+	e = numRe.ReplaceAllString(e, "N")
+	if len(e) > 140 {
+		e = e[:140]
 	}
-	if len(sel) == 1 {
-		if perr == "" {
-			perr = "program did not reach #END; output tail: " + tail(out, 300)
+	return e
+}
+
+// runGnoResilient runs the family on the Gno side. Units are independent, so when the program is rejected
+// (preprocess error) or the VM dies in the middle (host panic), the offending unit is identified (from the last
+// "#U" marker reached, from the source line in the error, or by bisection), recorded, and the remaining units are run.
+func runGnoResilient(g *gnoRunner, f *family, sel []int) (units map[int][]string, bad []badUnit, fatal string) {
+	units = map[int][]string{}
+	const chunk = 256 // bounds the cost of re-running after a VM crash
+	for lo := 0; lo < len(sel) && fatal == ""; lo += chunk {
+		hi := lo + chunk
+		if hi > len(sel) {
+			hi = len(sel)
 		}
-		return []badUnit{{sel[0], perr}}
+		var b []badUnit
+		b, fatal = runGnoChunk(g, f, sel[lo:hi], units, len(bad))
+		bad = append(bad, b...)
 	}
-	mid := len(sel) / 2
-	bad := isolate(g, f, sel[:mid], depth+1)
-	if len(bad) >= 8 {
-		return bad
+	return
+}
+
+func runGnoChunk(g *gnoRunner, f *family, sel []int, units map[int][]string, nbadSoFar int) (bad []badUnit, fatal string) {
+	remaining := append([]int{}, sel...)
+	for len(remaining) > 0 {
+		src, lmap := f.programMap(remaining)
+		out, perr := g.run(f.name, src)
+		blocks, ended := splitUnits(out)
+		if perr == "" && ended {
+			for k, v := range blocks {
+				units[k] = v
+			}
+			return
+		}
+		if len(bad)+nbadSoFar >= 400 {
+			fatal = perr
+			return
+		}
+		if perr == "" {
+			perr = "program ended without reaching #END; output tail: " + tail(out, 300)
+		}
+		culprit := -1
+		if len(blocks) > 0 {
+			// died at run time inside the last unit that was started; everything before it completed
+			last := -1
+			for _, i := range remaining {
+				if _, ok := blocks[i]; ok {
+					last = i
+				}
+			}
+			culprit = last
+			var next []int
+			after := false
+			for _, i := range remaining {
+				if i == culprit {
+					after = true
+					continue
+				}
+				if after {
+					next = append(next, i)
+				} else {
+					units[i] = blocks[i]
+				}
+			}
+			remaining = next
+		} else {
+			// rejected before running: map the reported source line to a unit, else bisect
+			if m := lineRe.FindStringSubmatch(perr); m != nil {
+				var ln int
+				fmt.Sscanf(m[1], "%d", &ln)
+				for _, i := range remaining {
+					if ln >= lmap[i][0] && ln <= lmap[i][1] {
+						culprit = i
+					}
+				}
+			}
+			if culprit < 0 {
+				culprit = bisect(g, f, remaining)
+			}
+			if culprit < 0 {
+				fatal = perr
+				return
+			}
+			var next []int
+			for _, i := range remaining {
+				if i != culprit {
+					next = append(next, i)
+				}
+			}
+			remaining = next
+		}
+		bad = append(bad, badUnit{culprit, perr})
 	}
-	return append(bad, isolate(g, f, sel[mid:], depth+1)...)
+	return
+}
+
+// bisect returns one unit of sel on which the Gno side fails before running anything (-1 if none can be isolated).
+func bisect(g *gnoRunner, f *family, sel []int) int {
+	fails := func(s []int) bool {
+		out, perr := g.run(f.name, f.program(s))
+		_, ended := splitUnits(out)
+		return perr != "" || !ended
+	}
+	for len(sel) > 1 {
+		mid := len(sel) / 2
+		if fails(sel[:mid]) {
+			sel = sel[:mid]
+		} else if fails(sel[mid:]) {
+			sel = sel[mid:]
+		} else {
+			return -1 // only fails in combination: units are not independent (harness bug)
+		}
+	}
+	if len(sel) == 1 && fails(sel) {
+		return sel[0]
+	}
+	return -1
 }
 
 // ---------------------------------------------------------------------------------------------
@@ -559,25 +690,49 @@ func main() {
 		fam *family
 	}
 	results := make([]res, len(fams))
+	// heaviest programs first, one GnoVM store per worker (stdlibs are loaded once per worker)
+	order := make([]int, len(fams))
+	for i := range order {
+		order[i] = i
+	}
+	weight := func(f *family) int {
+		n := 0
+		for _, u := range f.units {
+			n += len(u.decls)
+		}
+		return n
+	}
+	sort.SliceStable(order, func(a, b int) bool { return weight(fams[order[a]]) > weight(fams[order[b]]) })
+	jobs := make(chan int, len(fams))
+	for _, i := range order {
+		jobs <- i
+	}
+	close(jobs)
 	var wg sync.WaitGroup
-	sem := make(chan struct{}, runtime.GOMAXPROCS(0))
 	skipped := 0
 	var mu sync.Mutex
-	for i, f := range fams {
+	nw := runtime.GOMAXPROCS(0)
+	if nw > len(fams) {
+		nw = len(fams)
+	}
+	for w := 0; w < nw; w++ {
 		wg.Add(1)
-		go func(i int, f *family) {
+		go func() {
 			defer wg.Done()
-			sem <- struct{}{}
-			defer func() { <-sem }()
-			if r.Expired() {
-				mu.Lock()
-				skipped++
-				mu.Unlock()
-				return
+			var g *gnoRunner
+			for i := range jobs {
+				if r.Expired() {
+					mu.Lock()
+					skipped++
+					mu.Unlock()
+					continue
+				}
+				if g == nil {
+					g = newGnoRunner()
+				}
+				results[i] = res{checkFamily(g, fams[i]), fams[i]}
 			}
-			g := newGnoRunner()
-			results[i] = res{checkFamily(g, f), f}
-		}(i, f)
+		}()
 	}
 	wg.Wait()
 	totalUnits, totalLines := 0, 0
